@@ -333,9 +333,12 @@ pub fn run(seed: u64, shard: u64, cases: u64, only: Option<u64>, rep: &mut Repor
     let n_opts = 10u64;
     for id in ids {
         let mut rng = Rng::stream(seed, id, 0xC20);
-        let (af, ac) = free_port_pair();
-        let (rf, rc) = free_port_pair();
-        let (internal, _) = free_port_pair();
+        // five distinct ports (held open together while choosing, so that none is handed out twice)
+        let (af, ac, rf, rc, internal) = {
+            let ls: Vec<TcpListener> = (0..5).map(|_| TcpListener::bind("127.0.0.1:0").unwrap()).collect();
+            let p: Vec<u16> = ls.iter().map(|l| l.local_addr().unwrap().port()).collect();
+            (p[0], p[1], p[2], p[3], p[4])
+        };
         let forced = |opt: u64| -> Option<u8> { if id < n_opts * 4 && id / 4 == opt { Some((id % 4) as u8) } else { None } };
         let datadir = dir.join(format!("cfg-{id}"));
         let _ = std::fs::remove_dir_all(&datadir);
